@@ -20,6 +20,11 @@ def current : Policy :=
 theorem empty_dict_is_copied : current.emptyDictFresh = true := by decide
 theorem default_null_is_fresh : current.defaultNullFresh = true := by decide
 
+/-- Tie A obligation: neither `scrub` nor any function of `formatting.py` assigns to, deletes from or calls a mutating
+method on a part of what it was given (flow-insensitive reading of the current source): `format` leaves its argument as
+it was, and `scrub` leaves the grammar's objects — which the grammar may put under several parents — as they were -/
+theorem arguments_not_written : Gen.argumentWrites.all (fun w => Ref.allowedArgumentWrites.contains w) = true := by decide
+
 /-- **Every container of every result is the caller's** — for every raw parse result, of any size and
 depth, with or without a caller-supplied `null=` object: each list and dict in the returned tree was
 allocated during the call, or is the caller's own `null=` object. -/
